@@ -259,6 +259,7 @@ for _p in ("C14", "C15", "C16"):
     PROPS[_p]["tasks"] = PROPS[_p]["tasks"] + [t for t in ("json_extends", "census:json_extends-call-sites") if t not in PROPS[_p]["tasks"]]
 # round 9: "no higher than the buyer's limit" speaks about the limit the buyer SUBMITTED; it reaches the book through the side-dependent rounding of `_add_order` (C01 depends on it)
 PROPS["C01"]["tasks"] = PROPS["C01"]["tasks"] + [t for t in ("Market._add_order",) if t not in PROPS["C01"]["tasks"]]
+PROPS["C05"]["tasks"] = PROPS["C05"]["tasks"] + [t for t in ("Market._execute_orders",) if t not in PROPS["C05"]["tasks"]]      # every fill is reported to the logger the market holds (fills are observed through it)
 from .census import CALLERS as _CALLERS
 for _g, (_ps, _r, _t) in _CALLERS.items():
     for _p in _ps:
